@@ -76,6 +76,9 @@ C02.defname: the default function named by the annotation, the one generated and
 Not decided: that the parsed list equals the source list, hoisted inner names for arbitrary nesting.".into();
     ctx.assumptions = vec!["ref/asn1kind_to_rasn.json: ASN.1 kind -> rasn prelude type".into(), "SequenceOrSet / SequenceOrSetOf are shared payloads: SET differs from SEQUENCE only by the marker".into()];
     ctx.rule("pattern-sibling rule over all ASN1Type matches; adaptor whitelist over component-list chains; table extraction");
+    // "nothing is added": COMPONENTS OF takes the root components of the referenced type and only those, at the position of the
+    // notation (the analysis lives with C09.splice)
+    borrow(ctx, "C09", "C09.splice", "C02.splice", &mut |sub| crate::rules::c09::run(m, sub));
     sym(m, ctx);
     order(m, ctx);
     kindmap(m, ctx);
